@@ -21,8 +21,6 @@ Oracle (independent reading of the property over what the implementation did; ow
   a manipulation that only changes representation may be accepted but then yields the
   original message.
 """
-import json
-
 from common import compare, load_corpus, HarnessError
 import c11_util
 from c11_util import rfc_parse_option, rfc_build_option, rfc_parse_datagram
@@ -388,9 +386,6 @@ def oracle_outer(wire, spec):
     for m in spec_markers(spec):
         if m in front:
             return f"inner data {m!r} visible in the outer message"
-    inner_code = spec["code"]
-    if inner_code not in OUTER_CODES and False:
-        pass
     return ""
 
 
@@ -961,13 +956,13 @@ def run(env, rep):
             scns.append(c["scn"])
             rep.count("corpus")
     scns += boundary_scenarios(gen, rng)
-    for _ in range(env.scale(60, 900)):
+    for _ in range(env.scale(140, 2500)):
         s = gen.scenario()
         if rng.random() < 0.6:
             s["twin"] = make_twin(gen, s)
         scns.append(s)
     # requests with Proxy-Uri: out of model (URI splitting), oracle only
-    for _ in range(env.scale(6, 60)):
+    for _ in range(env.scale(6, 40)):
         s = gen.scenario(nresp=0, flips="none")
         s["req"]["opts"] = sorted(
             [o for o in s["req"]["opts"] if o[0] not in (3, 7, 39, 11, 15)] +
@@ -989,7 +984,12 @@ def run(env, rep):
                  "manip:paybit:must-fail", "manip:rid:must-fail", "manip:key:must-fail",
                  "manip:optset:representation"):
         if not rep.hist.get(need):
-            raise HarnessError(f"generator produced no case of kind {need}")
+            if rep.oracle_failures or rep.disagreements:
+                # the implementation under test broke the exchanges themselves; that is reported
+                # as a violation, not as a harness problem
+                rep.notes.append(f"no case of kind {need} (exchanges fail)")
+            else:
+                raise HarnessError(f"generator produced no case of kind {need}")
     rep.exhaustive_parts.append("all single-bit flips of OSCORE option and ciphertext on 4 exchanges; "
                                 "all ID-length pairs 0..7; all Partial-IV length boundaries; "
                                 "all 256 first bytes of the OSCORE option")
